@@ -1,6 +1,7 @@
 package props
 
 import (
+	"encoding/base64"
 	"fmt"
 	"time"
 
@@ -104,7 +105,7 @@ func c01Scenarios(tier string) []engine.Scenario {
 		Name: "S2-otp-remember", Cfg: world.Config{Modules: []string{"auth", "otp", "remember", "logout"}}, Depth: depth,
 		Init: func(s *world.Stack) *world.World {
 			w := world.NewWorld("B1", "B2")
-			seedTwo(s, w, flows.Acct{OTPs: []string{"11111111-22222222-33333333-44444444"}}, flows.Acct{OTPs: []string{"aaaaaaaa-bbbbbbbb-cccccccc-dddddddd"}})
+			seedTwo(s, w, flows.Acct{OTPs: []string{"11111111-22222222-33333333-44444444", "55555555-66666666-77777777-88888888"}}, flows.Acct{OTPs: []string{"aaaaaaaa-bbbbbbbb-cccccccc-dddddddd"}})
 			return w
 		},
 		Actions: func(s *world.Stack, w *world.World) []engine.Action {
@@ -245,6 +246,9 @@ func recoverEndActs(w *world.World, b string, owners []string, newpw string) []e
 		var cs []cand
 		if s := w.Truth.Newest("rtok", o, false); s != nil {
 			cs = append(cs, cand{"rtok:live(" + short(o) + ")", s.Val})
+		}
+		if s := w.Truth.Newest("rtok", o, false); s != nil {
+			cs = append(cs, cand{"rtok:live-verifier-bit-flipped(" + short(o) + ")", flipTokenBit(s.Val, 63*8)})
 		}
 		if s := w.Truth.Newest("rtok", o, true); s != nil {
 			cs = append(cs, cand{"rtok:dead(" + short(o) + ")", s.Val})
@@ -405,4 +409,14 @@ func init() {
 			"bounded: 2-3 accounts, 2 browsers, request alphabets listed in props/c01.go, depth per tier",
 		},
 	})
+}
+
+// flipTokenBit flips one bit of the decoded token bytes and re-encodes.
+func flipTokenBit(tok string, bit int) string {
+	raw, err := base64.URLEncoding.DecodeString(tok)
+	if err != nil || bit/8 >= len(raw) {
+		return tok + "x"
+	}
+	raw[bit/8] ^= 1 << uint(bit%8)
+	return base64.URLEncoding.EncodeToString(raw)
 }
